@@ -206,6 +206,10 @@ func (rd *reader) owners(rule string, f *types.Var, allowed ...string) {
 func (rd *reader) parserRules(ruleLen, ruleMask, ruleFin, ruleDec string) {
 	c, r := rd.c, rd.c.R
 	full := core.Opts{Unroll: 0, RecordLoads: true, Inline: rd.inl(), ConstLoops: true}
+	// length facts of (*Conn).read / Peek (len(p) == n after a successful read) so that loops over the bytes just
+	// read have constant trip counts
+	lf := &c07state{c: c, read: rd.read}
+	full.AfterCall, full.OnFact = lf.libFacts, lf.factConsequences
 
 	// ---- len-classes, mask-thread(a), final-flag, inflate-iff-rsv1(a) on accepted paths of advanceFrame
 	okL, whyL := true, "extension width and decoder agree with the 7-bit length class on every accepted path"
